@@ -8,6 +8,9 @@ pub struct Known {
     pub property: String,
     pub signature: String,
     pub what: String,
+    /// the damaged member must not be put back to its pre-operation clone (the effect is durable)
+    #[serde(default)]
+    pub no_restore: bool,
 }
 
 #[derive(Clone, Debug, Deserialize, Default)]
@@ -36,4 +39,11 @@ pub fn signatures_for(property: &str) -> Vec<String> {
         .filter(|k| k.property == property)
         .map(|k| k.signature)
         .collect()
+}
+
+pub fn no_restore(signature: &str) -> bool {
+    load()
+        .known
+        .iter()
+        .any(|k| k.signature == signature && k.no_restore)
 }
